@@ -58,7 +58,9 @@ class Sys(object):
             self.calls += 1
             tok = self.calls
             r = c.actor.call(lambda: c.call("echo", tok), 200)
-            if self.srv_closed:
+            if getattr(c, "stalled", False):
+                pass
+            elif self.srv_closed:
                 if r[0] != "EOFError":
                     self.bad("client-still-served-after-server-close:%s:%s" % (self.kind, r[0]), "call -> %r" % (r,))
                 c.status = "closed"
@@ -69,6 +71,14 @@ class Sys(object):
             elif r[:2] != ("value", ("echo", tok)):
                 if not (self.kind == "oneshot" and r[0] in ("timeout", "EOFError")):
                     self.bad("good-client-call-failed:%s:%s" % (self.kind, r[0]), "%r" % (r,))
+        elif op == "stall":
+            # the client sends the first bytes of a request and then stays connected, silent (it is still being served)
+            c = self.clients[ev[1]]
+
+            def half():
+                c.sock.send(b"\x00\x00\x00")
+            c.actor.call(half, 100)
+            c.stalled = True
         elif op == "close":
             c = self.clients[ev[1]]
             c.actor.call(c.graceful, 100)
@@ -143,7 +153,24 @@ class Sys(object):
             self.apply(("srvclose",))
         self.apply(("srvclose",))
         for c in list(self.live()):
-            self.apply(("call", c.name))
+            if getattr(c, "stalled", False):
+                def peek(c=c):
+                    c.sock.settimeout(5)
+                    try:
+                        for _ in range(50):      # a farewell (close request) may precede the end of the stream
+                            d = c.sock.recv(100)
+                            if not d:
+                                return b""
+                        return "no-eof"
+                    except Exception as ex:    # noqa
+                        return type(ex).__name__
+                r = c.actor.call(peek, 100)
+                if r != b"" and r not in ("ConnectionResetError",):
+                    self.bad("stalled-client-not-terminated-by-server-close:%s" % self.kind, "socket read -> %r" % (r,))
+                c.actor.call(c.abrupt, 100)
+                S.sim_time.sleep(SETTLE)
+            else:
+                self.apply(("call", c.name))
         S.sim_time.sleep(2.0)
         self.check(("final",))
         # all server threads must have ended
@@ -168,7 +195,12 @@ class Sys(object):
                 if all(self.clients[n].status != "none" for n in CLIENTS if n < name):
                     out.append(("connect", name))
             elif c.status == "connected":
-                out += [("call", name), ("close", name), ("drop", name)]
+                if getattr(c, "stalled", False):
+                    out += [("drop", name)]
+                else:
+                    out += [("call", name), ("close", name), ("drop", name)]
+                    if name == "1":
+                        out.append(("stall", name))
         if self.srv_closed < 2:
             out.append(("srvclose",))
         return out
